@@ -55,6 +55,15 @@ def run(ctx):
                                                   "server_wide_state_is_written_by_its_constructors_only no longer checks; two requests on different files "
                                                   "running this function (or this function and a reader of the field) race; the Go race detector reports it under load",
                                            "call_site": fn, "field": ty + "." + fld})
+                import C03
+                for name, calls in C03.failing_slot_functions(ctx)[:3]:
+                    ctx.add_violation("slot-without-lock:" + name,
+                                      "fstxn.%s reaches a cached inode without holding the inode's lock (calls in source order: %s): whoever uses what it returns reads memory "
+                                      "that the lock holder writes" % (name, calls),
+                                      {"input": {"function": "fstxn." + name, "calls_in_source_order": calls},
+                                       "how": "regenerated table Gen/Skeleton.slotUses checked by Model/Skeleton.slotCheck (theorem cached_inodes_are_reached_under_their_lock): "
+                                              "a request running this function and a request that holds the inode's lock and changes the inode (CREATE in the directory, WRITE, "
+                                              "SETATTR, the shrinker) are unordered; the Go race detector reports the pair under load"})
                 bad = failing_handlers(ctx)
                 for fn in (bad or []):
                     if fn.startswith("mu_"):
